@@ -176,11 +176,13 @@ def shape_failures(a, b, include, result, structure=True):
             if n_meta != 1 or n_tmpl != 1:
                 fails.append('combined view: %d title-diff metas and %d old-head templates added' % (n_meta, n_tmpl))
             else:
-                meta = v.find_all('meta', attrs={'name': 'wm-diff-title'})[-1]
+                # the added ones are the last LIVE ones: copies inside the inert old-head template come later in document order
+                live = lambda e: not e.find_parent('template', id='wm-diff-old-head')   # noqa
+                meta = [e for e in v.find_all('meta', attrs={'name': 'wm-diff-title'}) if live(e)][-1]
                 got_old, got_new = unmark(meta.get('content', ''))
                 if (got_old, got_new) != (h.get_title(old), h.get_title(new)):
                     fails.append('title diff %r reconstructs (%r, %r), titles are (%r, %r)' % (meta.get('content'), got_old, got_new, h.get_title(old), h.get_title(new)))
-                tmpl = v.find_all('template', id='wm-diff-old-head')[-1]
+                tmpl = [e for e in v.find_all('template', id='wm-diff-old-head') if live(e)][-1]
                 want = html5_parser.parse('<template>%s</template>' % ser_children(old.head), treebuilder='soup', return_root=False).find('template')
                 if re.sub(r'\s+', ' ', ser_children(tmpl)) != re.sub(r'\s+', ' ', ser_children(want)):
                     fails.append('old-head template holds %r, old head is %r' % (ser_children(tmpl)[:200], ser_children(want)[:200]))
@@ -210,15 +212,18 @@ def run(rep, ctx):
         pairs.append((m, rng.choice(mal), True))
         pairs.append((rng.choice([d[0] for d in docs]), m, True))
         pairs.append((m, m, True))
+    rediffed = [m for m in mal if 'wm-diff-' in m]
     for f in FRAMESETS:
         pairs += [(f, f, False), (f, '<p>x</p>', False), ('<p>x</p>', f, False)]
+    forced = [(m, m2, True, inc) for m in rediffed for m2 in rediffed for inc in ('combined', 'all')]
     crash = shape = 0
     refused = 0
     dist = {'well_formed_pairs': len(docs), 'malformed_pairs': len(pairs) - len(docs), 'includes': {}, 'refused': 0, 'out_of_model_domain': 0}
     corr = []
     envs = [None, {'DIFFER_COLOR_INSERTION': '#00ff00', 'DIFFER_COLOR_DELETION': 'rgb(255, 0, 0)'}, {'DIFFER_COLOR_INSERTION': 'red; } body { display: none', 'DIFFER_COLOR_DELETION': '"quoted" & <b>'}]
-    for idx, (a, b, structure) in enumerate(pairs):
-        include = INCLUDES[idx % len(INCLUDES)] if idx % 3 else 'all'
+    work = [(a, b, structure, None) for a, b, structure in pairs] + forced
+    for idx, (a, b, structure, forced_include) in enumerate(work):
+        include = forced_include or (INCLUDES[idx % len(INCLUDES)] if idx % 3 else 'all')
         env = envs[idx % 7] if idx % 7 < len(envs) else None
         saved = {k: os.environ.get(k) for k in ('DIFFER_COLOR_INSERTION', 'DIFFER_COLOR_DELETION')}
         if env:
@@ -270,7 +275,7 @@ def run(rep, ctx):
             rep.known_finding(kf['what'])
         else:
             rep.extra.setdefault('known_findings_no_longer_failing', []).append(kf['id'])
-    rep.obligation('observer c14: no exception other than the documented refusal on %d calls (%d refused as not HTML)' % (len(pairs), dist['refused']), crash == 0)
+    rep.obligation('observer c14: no exception other than the documented refusal on %d calls (%d refused as not HTML)' % (len(work), dist['refused']), crash == 0)
     rep.obligation('observer c14: keys, complete documents, kept head/body/html attributes, one style + one script, title diff and old head in the combined view', shape == 0)
     # explicit refusal path and include validation
     n_ref = 0
